@@ -250,6 +250,40 @@ def c04(L, tier):
     return [s]
 
 
+def c05(L, tier):
+    """C05 (constraint-system part): public-input order and completeness of the leaf constraint system"""
+    s = c05_structure(L, tier)[0]
+    ir, sx = L.ir, L.sx
+    salt_n = ir["consts"]["salt_nullifier"]; salt_w = ir["consts"]["salt_wormhole"]
+    secret = L.I("null_secret")
+    cuts, why = find_cuts(L)
+    if cuts is None:
+        s.results.append(Result("cut-point discovery: " + why, "holds", "UNKNOWN", 0.0))
+        return [s]
+    T = lambda cl: [sx.terms[c].as_int() for c in cl]
+    nd = z3.Not(L.spec_dummy)
+    hdr = L.I("parent_hash") + L.I("block_number") + L.I("state_root") + L.I("extrinsics_root") + L.I("zk_tree_root") + L.I("digest")
+
+    class Tmp:
+        pass
+    tmp = Tmp(); tmp.nfresh = 0; tmp.asserts = []; tmp.prefix = "spec_"
+    cf = z3.Int("spec_cfee")
+    prod, _ = symx.shift_add_product(tmp, L.inp, cf, 10000)
+    accept = z3.And(
+        L.asset < B32, L.inp < B32, L.o1 < B32, L.o2 < B32, L.bn < B32, L.tc[0] < B32, L.tc[1] < B32, L.fee <= 10000,
+        cf == 10000 - L.fee, *tmp.asserts, (L.o1 + L.o2) * 10000 <= prod,
+        L.depth <= 16, z3.And([z3.And(p >= 0, p <= 3) for p in L.pos]),
+        eq4(L.to, L.sp.hash(L.sp.hash(salt_w + secret))),
+        eq4(L.I("ua_secret"), secret), eq4(L.I("ua_account"), L.to), z3.And([a == b for a, b in zip(L.I("null_tc"), L.tc)]),
+        z3.Implies(nd, z3.And(eq4(L.nullifier, L.sp.hash(L.sp.hash(salt_n + secret + L.tc))), eq4(L.bh, L.sp.hash(hdr)),
+                              eq4(L.I("zk_tree_root"), L.root), eq4(L.root, T(cuts[16])))))
+    cs = completeness(sx, "C05", "every honest statement (ranges, fee rule, depth<=16, positions 0..3, address/nullifier/header/"
+                      "tree bindings; dummies need none of the last three) satisfies the leaf constraint system", accept,
+                      extra=L.sp.axioms(), timeout_s=600, verbose=True)
+    s.results += cs.results
+    return [s]
+
+
 def c05_structure(L, tier):
     """public-input order = documented layout (structural: PI classes vs named target classes)"""
     s = L.session("C05")
